@@ -191,9 +191,15 @@ func (p *Program) background(d *Decls) []*T {
 	for i := 1; i <= len(p.tagName); i++ {
 		n := fmt.Sprintf("mkiface_%d", i)
 		if d.Has(n) {
-			r := Sym("r!ax", SInt)
+			srt := SInt
+			p.mu.Lock()
+			if s2, ok := p.tagSort[i]; ok {
+				srt = s2
+			}
+			p.mu.Unlock()
+			r := Sym("r!ax", srt)
 			app := App(n, SInt, r)
-			out = append(out, Forall([]*T{r}, pattern(Eq(App("un"+n, SInt, app), r), app)))
+			out = append(out, Forall([]*T{r}, pattern(Eq(App("un"+n, srt, app), r), app)))
 		}
 	}
 	return out
